@@ -224,6 +224,9 @@ def make_contractions(basis_dict, atoms, coords, coord_types):
                 f"got {coord_types}"
             )
         coord_types = [coord_types] * num_coord_types
+    else:
+        # work on a private copy: the entries are consumed below, and a tuple must be accepted as well
+        coord_types = list(coord_types)
 
     if len(coord_types) != num_coord_types:
         raise ValueError(
